@@ -47,7 +47,10 @@ def run_cancel(rep, count, mode_args, with_invalid):
         # C06: a few very long scripts (hundreds of KiB): a statement must be parsed the same at any distance from the start
         import random
         rnd = random.Random(rep.seed + 1)
-        stmts = [l.strip() for l in open(CORPUS, encoding="utf-8", errors="surrogateescape") if 30 < len(l) < 160 and l[:6].lower() == "select" and ";" not in l and "--" not in l]
+        stmts = [l.strip() for l in open(CORPUS, encoding="utf-8", errors="surrogateescape") if 30 < len(l) < 160 and l[:6].lower() == "select" and ";" not in l and "--" not in l and "$" not in l]
+        # (no '$': `SELECT 1 AS $alias$name$` alone has an identifier with dollar signs, but two copies of it within the lexer's
+        # 8 KiB look-ahead pair up as ONE dollar-quoted string `$alias$ ... $alias$` across the statements between them -- the
+        # joined text is then not the sequence of the same statements, exactly as with INSERT ... FORMAT payloads)
         with open(cases, "a") as f:
             # (sizes chosen to pass 1 MiB in the quick tier and 4 MiB / 16 MiB in the thorough one: a size limit on the input
             # must not drop the tail of a script silently)
